@@ -2,6 +2,7 @@ package main
 
 import (
 	"fmt"
+	"go/token"
 	"go/types"
 	"regexp"
 	"sort"
@@ -34,6 +35,77 @@ func runC14(c *Ctx) {
 	c14MultiRefusal(c)
 	rootsPerValue(c, "R4")
 	nilRoot(c, "R5")
+	oneEntryIntoTheInterpreter(c, "R7")
+}
+
+// oneEntryIntoTheInterpreter (R7): what the tool prints and how it exits is what the library yields
+// for the program, the selectors and the inputs. Outside the -dbg-* developer flags the command line
+// enters the interpreter through EvalProgram alone (and reads the document through GetRootJson): it
+// does not lex, parse or evaluate anything by itself — a selector checked up front is reported before
+// the BEGIN rules have printed, which the library would not do.
+func oneEntryIntoTheInterpreter(c *Ctx, rule string) {
+	p := c.P
+	run := p.CliFunc("Run")
+	if run == nil {
+		c.undecided(rule, "cli.Run", "", "anchor not found")
+		return
+	}
+	c.note("%s one-entry-into-the-interpreter: over the functions of package cli reachable from Run by static calls, leaving out call sites dominated by the true edge of a test of a flag named dbg-*, the only functions of package lang that are called are EvalProgram and (*Evaluator).GetRootJson.", rule)
+	allowed := map[string]bool{"lang.EvalProgram": true, "(*lang.Evaluator).GetRootJson": true}
+	devOnly := func(fn *ssa.Function, b *ssa.BasicBlock) bool {
+		for _, blk := range fn.Blocks {
+			if len(blk.Instrs) == 0 || len(blk.Succs) != 2 {
+				continue
+			}
+			ifi, ok := blk.Instrs[len(blk.Instrs)-1].(*ssa.If)
+			if !ok {
+				continue
+			}
+			ld, ok := ifi.Cond.(*ssa.UnOp)
+			if !ok || ld.Op != token.MUL {
+				continue
+			}
+			call, ok := ld.X.(*ssa.Call)
+			if !ok || len(call.Call.Args) == 0 {
+				continue
+			}
+			if name, isS := constString(call.Call.Args[0]); !isS || !strings.HasPrefix(name, "dbg-") {
+				continue
+			}
+			if blk.Succs[0] != blk.Succs[1] && blk.Succs[0].Dominates(b) && len(blk.Succs[0].Preds) == 1 {
+				return true
+			}
+		}
+		return false
+	}
+	seen := map[*ssa.Function]bool{run: true}
+	work := []*ssa.Function{run}
+	nCalls := 0
+	for len(work) > 0 {
+		fn := work[0]
+		work = work[1:]
+		for _, call := range callsIn(fn) {
+			g := call.Common().StaticCallee()
+			if g == nil || devOnly(fn, call.Block()) {
+				continue
+			}
+			if g.Pkg != nil && g.Pkg == run.Pkg && !seen[g] {
+				seen[g] = true
+				work = append(work, g)
+			}
+			if p.InLang(g) {
+				nCalls++
+				c.check(allowed[shortName(g)], rule, "one-entry-into-the-interpreter "+shortName(fn)+" -> "+shortName(g), p.InstrPos(call), "the interpreter is entered through EvalProgram", "the command line calls "+shortName(g)+" by itself (outside the -dbg-* flags): what it prints or how it exits then differs from what the library yields for the same program, selectors and inputs — a fault found this way is reported before the BEGIN rules have run")
+			}
+		}
+		for _, a := range fn.AnonFuncs {
+			if !seen[a] {
+				seen[a] = true
+				work = append(work, a)
+			}
+		}
+	}
+	c.check(nCalls >= 2, rule, "one-entry-into-the-interpreter", p.Pos(run.Pos()), "EvalProgram and GetRootJson are called", fmt.Sprintf("%d calls into package lang found from cli.Run (2 expected)", nCalls))
 }
 
 // cliExitDiscipline (C14/R1 = C01/R8)
